@@ -173,9 +173,13 @@ func (c04) RunCase(c fw.Case, env *fw.Env) *fw.CaseResult {
 		var op gen.Op
 		if step == 0 && vc.Quant == "pq" {
 			op = gen.Op{Kind: gen.OpInsert, Tag: "bulk-insert-for-training"}
+			// every bulk point carries its vector fields: the trigger (1000) must really be crossed
+			keep := g.PresentProb
+			g.PresentProb = 1
 			for i := 0; i < 1060; i++ {
 				op.Points = append(op.Points, model.Point{Id: g.NewId(), Doc: g.Doc()})
 			}
+			g.PresentProb = keep
 		} else {
 			op = h.Next(m)
 		}
@@ -194,6 +198,9 @@ func (c04) RunCase(c fw.Case, env *fw.Env) *fw.CaseResult {
 		o := newVecOracle(dump, "v", sv)
 		if o.trained() {
 			res.Stat("batches_with_trained_quantiser", 1)
+			if o.mode == "pq" {
+				res.Stat("batches_with_trained_product_quantiser", 1)
+			}
 		}
 		tw.step(res, "C04", mBefore, m, op, out.Succeeded, o.trained(), step)
 		digest := dump.Digest()
